@@ -162,6 +162,7 @@ impl Typed for C30 {
             }
         }
         ctx.add("probe.thread_switches", res.switches);
+        ctx.add("fault.scheduler_preemption", res.switches);
         if res.switches >= 2 {
             ctx.nontrivial();
         }
